@@ -1037,7 +1037,11 @@ class bitarray:
             n = self._s.length()
             return format(self._s.value(), f'0{n}b') if n else ''
         if not self._s.concrete_len():
-            raise Unsupported('to01 of symbolic-length bits')
+            self._s.fix_lengths()        # forks over the feasible lengths (finite at the call sites; else Unsupported)
+            self._s = Seq(self._s.segs)
+            if self._s.is_concrete():
+                n = self._s.length()
+                return format(self._s.value(), f'0{n}b') if n else ''
         return Sym01(self._s)
 
     def tolist(self):
